@@ -53,6 +53,7 @@ func runC08(c Case, st *Stats) error {
 	defer func() { h.Close() }()
 	u := UniverseOf(c)
 	oo := obsFor(c.Cfg)
+	oo.Strict = true // the same implementation is compared before Close and after Open: error, empty and zero are distinct
 	interesting := false
 	nontrivial := false
 	var classes []string
